@@ -345,8 +345,12 @@ func casesFor(names []string, seed uint64, round, per int) []tcase {
 	}
 	for _, name := range names {
 		seeds := seedsOf[name]
-		for i := 0; i < per; i++ {
+		for i := 0; i < per*structShare(name); i++ {
 			var in []byte
+			if c, ok := structCase(r, name); ok { // structured field-level generators (syntax.go)
+				cs = append(cs, c)
+				continue
+			}
 			if name == "avc.ParsePSAndSlice" || name == "hevc.ParsePSAndSlice" {
 				cs = append(cs, tcase{name, genPipeline(r, name[:strings.Index(name, ".")]), 0})
 				continue
